@@ -44,6 +44,93 @@ func runC04(p *load.Program, r *core.Report) {
 	c04Fanout(a, r)
 	c04Remove(a, r)
 	c04Index(a, r)
+	c04SpawnLinks(a, r)
+}
+
+// c04SpawnLinks: L6 — the LinkChild option of a spawn creates the parent->child link after the
+// child was started, for every spawn form of a process.
+func c04SpawnLinks(a *Anchors, r *core.Report) {
+	rule := "C04.L6 link-child-on-spawn"
+	r.Floor(rule, 4)
+	for _, f := range funcsOfPkgs(a.P, "node") {
+		if f.Parent() != nil || !recvIs(f, a.ProcessT) {
+			continue
+		}
+		// spawn forms: functions of the process type that call (*node).spawn or RouteSpawn with options having LinkChild
+		var sp *ssa.Call
+		eachInstr(f, func(in ssa.Instruction) {
+			if c, ok := in.(*ssa.Call); ok && (callsNamed(in, "spawn") || callsNamed(in, "RouteSpawn")) {
+				sp = c
+			}
+		})
+		if sp == nil {
+			continue
+		}
+		hasOpt := false
+		for _, pa := range f.Params {
+			if namedOf(pa.Type()) == "gen.ProcessOptions" {
+				hasOpt = true
+			}
+		}
+		if !hasOpt {
+			continue
+		}
+		fn := fname(f)
+		key := "C04.L6|" + f.Name()
+		inst := f.Name() + ": with LinkChild the parent is linked to the started child (parent pid -> child pid), only after a successful start"
+		var add ssa.Instruction
+		eachInstr(f, func(in ssa.Instruction) {
+			if callsNamed(in, "AddLink") {
+				add = in
+			}
+		})
+		var probs []string
+		if add == nil {
+			probs = append(probs, "no AddLink: the LinkChild option is ignored and the parent never learns that the child terminated")
+		} else {
+			guarded := false
+			eachInstr(f, func(in ssa.Instruction) {
+				v, ok := in.(ssa.Value)
+				if !ok {
+					return
+				}
+				if _, path, okp := fieldPath(v); okp && len(path) > 0 && path[len(path)-1] == "LinkChild" {
+					t, _, _ := boolEdges(v)
+					if len(t) > 0 && edgesDominate(t, add) {
+						guarded = true
+					}
+				}
+			})
+			if !guarded {
+				probs = append(probs, "the link is not conditioned on LinkChild")
+			}
+			errv := tupleExtract(sp, 1)
+			if errv != nil {
+				isNil, _, _ := nilEdges(errv)
+				if len(isNil) == 0 || !edgesDominate(isNil, add) {
+					probs = append(probs, "the link is added although the spawn failed")
+				}
+			}
+			cc := callCommon(add)
+			args := cc.Args
+			if !cc.IsInvoke() {
+				args = args[1:]
+			}
+			_, p0, _ := fieldPath(args[0])
+			pidv := tupleExtract(sp, 0)
+			if len(p0) == 0 || p0[len(p0)-1] != "pid" {
+				probs = append(probs, "the consumer of the link is not the parent's pid")
+			}
+			if stripIface(args[1]) != pidv {
+				probs = append(probs, "the target of the link is not the pid returned by the spawn")
+			}
+		}
+		if len(probs) > 0 {
+			r.Bad(rule, key, fn, a.P.Pos(sp.Pos()), inst, strings.Join(probs, "; "))
+		} else {
+			r.OK(rule, key, fn, a.P.Pos(add.Pos()), inst, "AddLink(p.pid, childpid) under LinkChild after err == nil")
+		}
+	}
 }
 
 func routeFuncs(a *Anchors, prefixes ...string) []*ssa.Function {
